@@ -30,4 +30,13 @@ Qed.
 Theorem order_okb_iff {F} (g : graph F) (W : wf g) act : order_okb g act = true <-> order_ok g act.
 Proof. split; [apply (order_okb_ok g W)|apply (order_ok_okb g W)]. Qed.
 
+
+(* the same for the test that the assigned node is a Value node *)
+Lemma tgt_value_valueb {F} (g : graph F) d : tgt_value F g d -> tgt_valueb g d = true.
+Proof. intros [n [E K]]. unfold tgt_valueb. rewrite E, K. reflexivity. Qed.
+
+Theorem tgt_valueb_iff {F} (g : graph F) d : tgt_valueb g d = true <-> tgt_value F g d.
+Proof. split; [apply tgt_valueb_ok|apply tgt_value_valueb]. Qed.
+
 Print Assumptions order_okb_iff.
+Print Assumptions tgt_valueb_iff.
